@@ -384,7 +384,8 @@ theorem builtins_table_ok :
     ∀ p ∈ Ast.builtins, intrinsicForm p.2 = .invoke p.1 ∧ Ast.hlslBuiltin p.1 = some p.2 := by decide
 
 theorem builtin_of_form {i : Intrinsic} {name : String} (hm : Ast.modelledBuiltin i = true)
-    (hf : intrinsicForm i = .invoke name) : Ast.hlslBuiltin name = some i := by
+    (hf : intrinsicForm i = .invoke name) :
+    Ast.hlslBuiltin name = some i ∧ ∃ p ∈ Ast.builtins, p.1 = name := by
   simp only [Ast.modelledBuiltin, List.any_eq_true] at hm
   obtain ⟨p, hp, hpi⟩ := hm
   have hpi' : p.2 = i := by simpa using hpi
@@ -392,7 +393,7 @@ theorem builtin_of_form {i : Intrinsic} {name : String} (hm : Ast.modelledBuilti
   rw [hpi'] at h1 h2
   rw [hf] at h1
   have : name = p.1 := by injection h1
-  rw [this]; exact h2
+  exact ⟨by rw [this]; exact h2, p, hp, this.symm⟩
 
 theorem argsType_cons2 (sig : Sig) (env : Ast.Env) (a b : HlslAst.Expr) (r : HlslAst.Exprs) :
     Ast.argsType sig env (.cons a (.cons b r)) =
@@ -540,8 +541,8 @@ theorem sim_expr {W : World} {env : Ast.Env} {cx : Ctx} (hag : Agree cx env) :
             obtain ⟨hall, hret, hmod, hT1, hT2⟩ := hcond
             simp at ht; subst ht
             have hsa := sim_all hag T (.cons e0 r0) as hga hall hl
-            have hb := builtin_of_form hmod hf
-            have hnone := hag.builtin i name hf
+            obtain ⟨hb, p0, hp0, hpn⟩ := builtin_of_form hmod hf
+            have hnone : env.fres name = none := by rw [← hpn]; exact hag.builtin p0 hp0
             have hat := hsa.2 (by simp)
             have hprom : Ast.promoteArg (if Ir.allLitlike (.cons e0 r0) = true then Ty.lit else T) = T := by
               by_cases hal : Ir.allLitlike (.cons e0 r0) = true
